@@ -204,6 +204,9 @@ func checkMain(args []string) {
 	frag["wall_s"] = time.Since(start).Seconds()
 	frag["violations"] = nViol
 	frag["hooks_available"] = hooksAvailable
+	if transientWorkerFailures > 0 {
+		frag["transient_worker_failures_rerun_ok"] = transientWorkerFailures
+	}
 	if len(skippedHookStreams) > 0 {
 		frag["hook_streams_skipped"] = skippedHookStreams
 	}
